@@ -93,22 +93,26 @@ class Multiplication:
       if count_tag in gfa_line.tagnames:
         gfa_line.set(count_tag, gfa_line.get(count_tag) // factor)
 
+  @staticmethod
+  def __each_once(edges):
+    # an edge of a segment with itself is listed twice in the references
+    # of the segment (once for each end, or twice for the same end)
+    retval = []
+    for e in edges:
+      if not any(e is previous for previous in retval):
+        retval.append(e)
+    return retval
+
   def __divide_segment_and_connection_counts(self, segment, factor):
     self.__divide_counts(segment, factor)
-    processed_circulars = set()
-    for l in segment.dovetails + segment.containments:
-      if l.is_circular():
-        if l not in processed_circulars:
-          self.__divide_counts(l, factor)
-          processed_circulars.add(l)
-      else:
-        self.__divide_counts(l, factor)
+    for l in self.__each_once(segment.dovetails + segment.containments):
+      self.__divide_counts(l, factor)
 
   def __clone_segment_and_connections(self, segment, clone_name):
     cpy = segment.clone()
     cpy.name = clone_name
     cpy.connect(self)
-    for l in segment.dovetails + segment.containments:
+    for l in self.__each_once(segment.dovetails + segment.containments):
       lc = l.clone()
       if lc.from_segment == segment.name:
         lc.from_segment = clone_name
@@ -175,16 +179,22 @@ class Multiplication:
                                            segment_name, factor)
     if end_type is None:
       return
-    et_links = self.segment(segment_name).dovetails_of_end(end_type)
+    et_links = self.__each_once(
+                 self.segment(segment_name).dovetails_of_end(end_type))
     diff = max([len(et_links)-factor, 0])
     links_signatures = list([repr(l.other_end(gfapy.SegmentEnd(segment_name, \
                           end_type))) for l in et_links])
     for i, sn in enumerate([segment_name]+copy_names):
       to_keep = links_signatures[i:i+diff+1]
-      links = self.segment(sn).dovetails_of_end(end_type).copy()
+      links = self.__each_once(self.segment(sn).dovetails_of_end(end_type))
       for l in links:
-        l_sig = repr(l.other_end(gfapy.SegmentEnd(sn, end_type)))
-        if l_sig not in to_keep:
+        other_end = l.other_end(gfapy.SegmentEnd(sn, end_type))
+        if other_end.name == sn:
+          # link of a copy with itself: it is the copy of a link of
+          # the original segment with itself
+          other_end = gfapy.SegmentEnd(self.segment(segment_name),
+                                       other_end.end_type)
+        if repr(other_end) not in to_keep:
           l.disconnect()
 
   def _segment_and_segment_name(self, segment_or_segment_name):
